@@ -53,6 +53,12 @@ func (cl *Cluster) afterProcess(n *Node, pe *PEvent, err error, blocksBefore int
 	if pe.Ev.Frame() > 1 {
 		c.Probe("event_frame_gt1")
 	}
+	if d := len(n.blocks) - blocksBefore; d >= 2 {
+		c.Probe("one_event_decided_2_or_more_frames")
+		if d >= 3 {
+			c.Probe("one_event_decided_3_or_more_frames")
+		}
+	}
 
 	// ---- exact agreement with the reference implementation (C10) ----
 	if cl.on["ref"] && !cl.k.heavyByz {
